@@ -209,6 +209,9 @@ func (c *alphaCmp) ident(a, b *ast.Ident) bool {
 			return c.fail("package name %s refers to %s, its copy %s to %s", a.Name, ca.Path, b.Name, cb.Path)
 		}
 	case "universe", "member":
+		if a.Name != b.Name && ca.Kind == "member" && c.embeddedRenamed(oa, ob) {
+			return true
+		}
 		if a.Name != b.Name {
 			return c.fail("%s identifier %s copied as %s", ca.Kind, a.Name, b.Name)
 		}
@@ -262,6 +265,27 @@ func (c *alphaCmp) bindTypeSwitch(a, b *ast.TypeSwitchStmt) bool {
 		c.bwd[ob] = oa
 	}
 	return true
+}
+
+// embeddedRenamed: both objects are embedded fields whose types are corresponding (consistently
+// renamed) local types — the field's name follows its type.
+func (c *alphaCmp) embeddedRenamed(oa, ob types.Object) bool {
+	va, oka := oa.(*types.Var)
+	vb, okb := ob.(*types.Var)
+	if !oka || !okb || !va.Embedded() || !vb.Embedded() {
+		return false
+	}
+	tn := func(t types.Type) types.Object {
+		if p, ok := t.(*types.Pointer); ok {
+			t = p.Elem()
+		}
+		if n, ok := t.(*types.Named); ok {
+			return n.Obj()
+		}
+		return nil
+	}
+	ta, tb := tn(va.Type()), tn(vb.Type())
+	return ta != nil && tb != nil && c.fwd[ta] == tb
 }
 
 // selIdent: source identifier (dot-imported object) vs generated qualified selector.
